@@ -43,7 +43,7 @@ impl UnaryParser {
                         TokenType::Number(double, number_type)         => SmartCalcAstType::Item(Rc::new(NumberItem(double * opt, *number_type))),
                         TokenType::Variable(variable)     => SmartCalcAstType::PrefixUnary(operator, Rc::new(SmartCalcAstType::Variable(variable.clone()))),
                         TokenType::Percent(percent)       => SmartCalcAstType::PrefixUnary(operator, Rc::new(SmartCalcAstType::Item(Rc::new(PercentItem(*percent))))),
-                        TokenType::Money(money, currency) => SmartCalcAstType::PrefixUnary(operator, Rc::new(SmartCalcAstType::PrefixUnary(operator, Rc::new(SmartCalcAstType::Item(Rc::new(MoneyItem(*money, currency.clone()))))))),
+                        TokenType::Money(money, currency) => SmartCalcAstType::PrefixUnary(operator, Rc::new(SmartCalcAstType::Item(Rc::new(MoneyItem(*money, currency.clone()))))),
                         /* Sign in front of a group, for example -(2 + 3) */
                         TokenType::Operator('(') => {
                             return match PrimativeParser::parse_parenthesis(parser) {
